@@ -8,10 +8,10 @@ use crate::{
     },
     logging, utils, Error, Result,
 };
-use lazy_static::lazy_static;
+use crate::vsync::lazy_static;
 use std::collections::{HashMap, HashSet};
 use std::hash::Hash;
-use std::sync::{Arc, Mutex, RwLock, Weak};
+use crate::vsync::{Arc, Mutex, RwLock, Weak};
 
 /// ControllerGenfn represents the Traffic Controller generator function of a specific control behavior.
 pub type ControllerGenfn =
